@@ -33,7 +33,7 @@ def prime(width):
 
 
 def _mk(item):
-    name, src, deriv, width, focus, want_variants, seed = item
+    name, src, deriv, width, focus, want_variants, seed = item[:7]
     prime(width)
     out, err, info = fmt.run_writer(src, 'fmt', width)
     if out is None:
@@ -65,13 +65,17 @@ def judge(ctx, cases, widths, focus=FOCUS, variants=False):
     items = []
     for k, (name, src, deriv, valid) in enumerate(cases):
         for w in widths:
-            items.append((name, src, deriv, w, focus, variants, ctx.seed + k))
+            items.append((name, src, deriv, w, focus, variants, ctx.seed + k, valid))
     traces, meta = [], []
     res = core.parmap(_mk, items)
     raises = {}
     for it, (st, a, out) in zip(items, res):
         name, src, deriv, w = it[:4]
-        if st == 'load':
+        if st == 'load' and focus == 'C09' and it[7] and w == widths[0]:
+            # a program that is valid by construction does not even load: `p8tool luafmt` fails on a valid program
+            sig = 'fmt-load-fails/%s' % a.split(':')[1].strip()
+            raises.setdefault(sig, []).append((name, src, w, a))
+        elif st == 'load':
             ctx.out_of_domain += 1
         elif st == 'raises':
             if focus == 'C09':
@@ -117,7 +121,7 @@ def gen_cases(ctx, sets, layouts):
                 continue
             out.append(('%s#%d/%s' % (label, k, lay), src, b['deriv'], True))
             if any(x['t'] in ('unop', 'binop') for x in b['toks']) and k % 2 == 0:
-                rs = ('minus', 'dots', 'tilde')[(k // 2) % 3]
+                rs = ('minus', 'dots', 'tilde', 'slash')[(k // 2) % 4]
                 lay2 = 'spaced' if lay == 'tight' else lay
                 src2 = progs.render(b, lay2, random.Random(ctx.seed * 7919 + k), respell=rs)
                 if src2 is not None and src2 != src:
@@ -249,7 +253,10 @@ def run(ctx):
     nofinal = [(n + '/nofinalnl', s.rstrip(b'\n'), d, v) for (n, s, d, v) in cases[::50]]
     crlf = [(n + '/crlf', s.replace(b'\n', b'\r\n'), d, v) for (n, s, d, v) in cases[::50] if b'--[[m' not in s]
     fxcrlf = [(n + '/crlf', s.replace(b'\r\n', b'\n').replace(b'\n', b'\r\n'), d, v) for (n, s, d, v) in fx if n.endswith('~0')]
-    judge(ctx, degen + nofinal + crlf + fxcrlf, (2,))
+    # CR-only line ends (old Mac editors): a line end for the reference and for picotool alike; only comment-free sources
+    # (where a comment ends when a lone CR follows is the one point on which the dialect is not pinned down)
+    cronly = [(n + '/cr', s.replace(b'\n', b'\r'), d, v) for (n, s, d, v) in cases[::25] if b'--' not in s and b'//' not in s]
+    judge(ctx, degen + nofinal + crlf + fxcrlf + cronly, (2,))
     muts = mutated_inputs(ctx, rnd, cases + fx, 400 if ctx.quick else 4000)
     no_silent_loss(ctx, muts + [('newer%d' % k, s) for k, s in enumerate(NEWER)] + [(n, s) for n, s, _, _ in cases[::40]])
     ctx.evaluations += len(cases) + len(muts)
